@@ -115,6 +115,8 @@ func gen(c *lib.Ctx) {
 		genWrapIP(c)
 		genF13(c)
 		genC05SCION(c)
+		genNTS(c, "c05nts-ip", false)
+		genNTS(c, "c05nts-scion", true)
 	default:
 		panic("unknown -prop")
 	}
